@@ -475,9 +475,9 @@ def dedicated(ctx, emit_funcs, summaries):
         ctx.ob(rule, fi, sw_i == sw_t, "%s: handlers that swallow an exception in generated code %s vs in %s.%s %s" % (q, sorted(sw_t), owner, meth, sorted(sw_i)), key="swallowing handlers %s" % meth)
 
     # ---- constants wrapped as callables by the interpreter (RepeatUntil's non-callable predicate) return the constant, as `if (<repr>)` does in generated code
-    n_sc = no_self_capture(ctx, rule)
-    if n_sc < 2:
-        ctx.error("C04.R3: %d rebinding lambdas found in the package, floor 2 (RepeatUntil._parse/_build)" % n_sc)
+    # (a rule whose expected violation count is zero: its positive control, not a floor, guards against vacuity -- a refactoring that returns the
+    # wrapper from a helper instead of rebinding the local removes the hazard together with the instances)
+    no_self_capture(ctx, rule)
 
     # ---- FlagsEnum parse: per-flag test
     q = "FlagsEnum._emitparse"
@@ -667,7 +667,14 @@ def dedicated(ctx, emit_funcs, summaries):
             focus_ok, decided = True, 0
             for em, r, ts, fps in _tmpl(summaries, q):
                 fk = None
+                # a condition that is a local of the emitter assigned once (`focused = sc.name == self.parsebuildfrom`) is that expression
+                local_defs = {}
+                for st_ in ast.walk(fi.node):
+                    if isinstance(st_, ast.Assign) and len(st_.targets) == 1 and isinstance(st_.targets[0], ast.Name):
+                        local_defs.setdefault(st_.targets[0].id, []).append(st_.value)
                 for k, c in r.conds.items():
+                    if isinstance(c, ast.Name) and len(local_defs.get(c.id, ())) == 1:
+                        c = local_defs[c.id][0]
                     if isinstance(c, ast.Compare) and len(c.ops) == 1 and isinstance(c.ops[0], (ast.Eq, ast.NotEq)):
                         sides = {ast.unparse(c.left), ast.unparse(c.comparators[0])}
                         if "self.parsebuildfrom" in sides and any(s_.endswith(".name") for s_ in sides):
